@@ -170,6 +170,8 @@ def rand_inputs(rng, ns):
                 out[name] = rand_inputs(rng, d)
                 if rng.random() < 0.15:
                     out[name]['@OD'] = True  # marker: hand this nested mapping over as an OrderedDict
+                elif rng.random() < 0.1:
+                    out[name]['@UD'] = True  # marker: ... as a collections.UserDict
             elif r < 0.9:
                 out[name] = {}
             else:
@@ -197,9 +199,11 @@ def _real(value):
     if value == '@B':
         return B()
     if isinstance(value, dict):
-        out = {k: _real(v) for k, v in value.items() if k != '@OD'}
+        out = {k: _real(v) for k, v in value.items() if k not in ('@OD', '@UD')}
         if value.get('@OD'):
             return collections.OrderedDict(out)  # a dict subclass given by the caller
+        if value.get('@UD'):
+            return collections.UserDict(out)  # a mutable mapping that is not a dict
         return out
     return value
 
@@ -291,6 +295,8 @@ class Reject(Exception):
 
 
 def model_populate(children, given, stats):
+    if isinstance(given, collections.UserDict):
+        given = dict(given)  # any mapping will do
     if not isinstance(given, dict):
         raise Reject('namespace value is not a dictionary')
     out = dict(given)
@@ -326,6 +332,8 @@ def _leaves_ok(x, vt):
 def model_valid_ns(attrs, children, values, stats, top=False, depth=0):
     if values is None or (isinstance(values, tuple) and not values):
         values = {}  # None and the UNSPECIFIED marker () stand for "nothing given"
+    if isinstance(values, collections.UserDict):
+        values = dict(values)
     if not isinstance(values, dict):
         raise Reject('not a mapping')
     required = attrs.get('required', True)
@@ -370,7 +378,7 @@ def model(spec, inputs, stats):
 
 
 def plain(x):
-    if isinstance(x, (dict, plumpy.utils.Frozendict)):
+    if isinstance(x, (dict, plumpy.utils.Frozendict, collections.UserDict)):
         return {k: plain(v) for k, v in x.items()}
     return x
 
@@ -399,7 +407,7 @@ def _loop():
 
 def _snapshot(d):
     """Structure + leaf identities of the caller's dictionary."""
-    if isinstance(d, dict):
+    if isinstance(d, (dict, collections.UserDict)):
         return ('dict', id(d), {k: _snapshot(v) for k, v in d.items()})
     return ('leaf', id(d), repr(d))
 
